@@ -884,6 +884,17 @@ func runCmdScenario(c *core.Ctx, n *cmdNode, s *scenario) cmdRun {
 		}
 		return eval.Tuple{handle(fmt.Sprintf("openfile(%s, flags %#x: not create-and-truncate)", p, fl)), eval.Nil{}}
 	})
+	// the name of an opened file is the path it was opened with; the standard streams have their device names
+	ext("(*os.File).Name", func(recv eval.Value, _ []eval.Value) eval.Value {
+		h, ok := unref(recv).(*fileHandle)
+		if !ok {
+			return eval.Opaque{Why: "file name"}
+		}
+		if i := strings.Index(h.desc, "("); i >= 0 && strings.HasSuffix(h.desc, ")") {
+			return eval.S(h.desc[i+1 : len(h.desc)-1])
+		}
+		return eval.S("/dev/" + h.desc)
+	})
 	// the error from os.Open carries *fs.PathError fields read by gfio.parseInErr
 	ext("(*io/fs.PathError).Error", func(recv eval.Value, _ []eval.Value) eval.Value { return eval.S("path error") })
 	ext("(error).Error", func(recv eval.Value, _ []eval.Value) eval.Value {
